@@ -283,8 +283,13 @@ def offenders(res):
             continue
         if must_to:
             if status == "ok":
-                out.append(("command-deadline", "%s: streams stay open %s, command timeout %d, but it was never "
-                            "abandoned" % (name, "forever" if e is None else "until +%d" % e, ut)))
+                lost = [t for t in h["lost"] if h["cend"] + ut < t]
+                out.append(("command-deadline" + (":signal-lost-outside-xpoll" if lost else ""),
+                            "%s: streams stay open %s, command timeout %d, but it was never abandoned%s" %
+                            (name, "forever" if e is None else "until +%d" % e, ut,
+                             " (the watchdog's SIGALRM at %s found the worker outside xpoll, relaying output, and "
+                             "was lost)" % lost if lost else "")))
+                slip += WDOG_POLL * len(lost)
             continue
         if e is None:
             continue                   # hangs, no timeout: excluded run
